@@ -163,6 +163,10 @@ class FaultyGFile:
     i = inj()
     if 'w' in self._mode and i.open_write_path == self._path:
       crashed = i.effect('close_w:' + _classify(self._path))
+      if crashed and i.hard:
+        # real process death at the close: nothing is flushed, whatever still
+        # sits in the writer's buffer never reaches the disk
+        i.die()
       self._f.close()
       i.open_write_path = None
       if crashed:
@@ -584,6 +588,9 @@ def run_hard(case):
     ref_state, ref_tsvs, states, _ = reference(case, base)
     env = _env.worker_env()
     for crash in case['crashes']:
+      # the interrupted run is ANOTHER process than the one that completes the
+      # experiment: another string-hash seed, as after a real restart
+      env['PYTHONHASHSEED'] = str(4242 + crash['at'])
       spec = {'case': case, 'root': root, 'at': crash['at'], 'prefix': crash['prefix']}
       p = subprocess.run([sys.executable, '-m', 'vf.props.c09', json.dumps(spec)],
                          env=env, cwd=_env.VERIF_DIR, capture_output=True, text=True,
@@ -611,7 +618,10 @@ def hard_cases(tier):
     idx = [i for i, kind in enumerate(log)
            if kind.split(':')[0] in ('write', 'close_w', 'rename', 'remove', 'final_eval', 'apply')]
     step = max(1, len(idx) * 4 // n)
-    for i in idx[::step]:
+    # every close of a checkpoint file (death with unflushed buffers) of the
+    # first two configurations, plus an even sample of the other crash points
+    closes = [i for i in idx if log[i].startswith('close_w:ckpt')] if k < 2 * n else []
+    for i in sorted(set(idx[::step]) | set(closes[:4])):
       c = json.loads(json.dumps(case))
       c['crashes'] = [{'at': i, 'prefix': 'half', 'survive': None}]
       c['hard_kind'] = log[i]
